@@ -228,3 +228,6 @@ impl BlobWriter {
 pub fn misc_error() -> (r: TErr) ensures r is Misc { unimplemented!() }
 #[verifier::external_body]
 pub fn records_clear(c: &mut Vec<Record>) ensures final(c)@.len() == 0 { unimplemented!() }
+// record::Header::default().serialized_size(): length of a record header with an empty key (57: Kani layout harness)
+#[verifier::external_body]
+pub fn default_record_header_size() -> (r: u64) ensures r == 57 { unimplemented!() }
